@@ -35,6 +35,9 @@ MUTANTS = [
     ('stabilizer_entropy', '        entropy = numpy.sum(mask) - (L - z2rank(gs[:, ~mask2]))', '        entropy = numpy.sum(mask) - (L - z2rank(gs[:, mask2]))'),
     ('random_pauli', '        gs[2*i+1,2*i:2*i+2] = g2', '        gs[2*i+1,2*i:2*i+2] = g1'),
     ('condense', '    return g[numpy.repeat(mask, 2)], qubits', '    return g[numpy.repeat(mask, 2)], qubits + 1'),
+    ('random_clifford.random_clifford_', '            gs[1] = g2\n            random_clifford_', '            gs[1] = g1\n            random_clifford_'),
+    ('random_clifford.random_clifford_', '        if n == 1:\n            gs[0] = g1', '        if n <= 2:\n            gs[0] = g1'),
+    ('clifford_rotate_signless', '            gs[j] = (gs[j] + g)%2\n    return gs\n', '            gs[j] = (gs[j] + g + 1)%2\n    return gs\n'),
 ]
 
 
